@@ -80,6 +80,7 @@ class Map:
 
 
 def key_of(k):
+    k = absint.deref(k)
     if isinstance(k, (str, int, bool)):
         return ("v", k)
     if isinstance(k, list):
@@ -167,6 +168,8 @@ class Machine:
         r = self._fmt_model(c, a, raw, tt, g, env)
         if r is not NOT:
             return r
+        if c in ("std::mem::take", "std::mem::replace", "std::mem::swap", "core::mem::take", "core::mem::replace", "core::mem::swap"):
+            return self._mem_model(c.rsplit("::", 1)[-1], raw, a)
         if c.endswith("String::push") or c.endswith("String::push_str") or c.endswith("String::insert") or c.endswith("String::insert_str"):
             tgt, cur = raw[0], a[0]
             if isinstance(tgt, absint.Ptr) and isinstance(cur, str):
@@ -193,15 +196,89 @@ class Machine:
                 trait = c.rsplit("::", 1)[0]
                 cands = [f for f in self.fb.all(self.crate) if f.name.endswith("::" + meth) and f.self_ty and
                          mir.norm(f.self_ty).split("<")[0] == adt and (f.trait is None or mir.norm(f.trait).split("<")[0] == trait or trait.endswith(mir.norm(f.trait).split("<")[0]))]
+                if len(cands) > 1 and recv.fields and isinstance(recv.fields[0], Enum) and getattr(recv.fields[0], "adt", None):
+                    inner = recv.fields[0].adt              # Located<X>: pick the impl for this X
+                    cands = [f for f in cands if inner in f.self_ty.replace("ruschm::", "") or inner in f.name]
                 if len(cands) == 1:
                     h = cands[0]
         if h is not None and self.inline(c):
             return self.run(h, raw, generics=(tt.get("fn") or {}).get("generics"))
+        if h is None and c:
+            # an external call we have no model for: if it is handed a `&mut` to abstract state it may change it behind our back
+            # — refuse to continue (the row becomes UNDECIDED) rather than compute with stale state
+            for x, ty in zip(raw, tt.get("argtys") or []):
+                if ty.startswith("&mut ") and isinstance(absint.deref(x), (list, Map, Enum, Iter)) and not ty.startswith("&mut std::fmt::Formatter"):
+                    raise Stuck("no model for %s, which takes a mutable reference to abstract state" % c)
         if tt.get("fn") is None and a:                      # call through a fn pointer / closure value held in a local
             fv = absint.operand(env, tt["func"]) if isinstance(tt.get("func"), dict) else UNKNOWN
             if isinstance(fv, (Closure, FnItem)):
                 return self.call_value(fv, a)
         return None
+
+    def _snapshot(self, v):
+        if isinstance(v, Enum):
+            e = Enum(v.variant, list(v.fields))
+            for k in ("name", "adt"):
+                if hasattr(v, k):
+                    setattr(e, k, getattr(v, k))
+            return e
+        if type(v) is list:
+            return list(v)
+        if isinstance(v, Map):
+            m2 = Map()
+            m2.d = dict(v.d)
+            return m2
+        return v
+
+    def _default_of(self, v):
+        if isinstance(v, Enum):
+            if is_opt(v):
+                return none()
+            adt = getattr(v, "adt", None)
+            if adt:
+                cands = [f for f in self.fb.all(self.crate) if f.name.endswith("::default") and f.self_ty and mir.norm(f.self_ty).split("<")[0] == adt]
+                if len(cands) == 1:
+                    return self.run(cands[0], [])
+            return None
+        if type(v) is list:
+            return []
+        if isinstance(v, Map):
+            return Map()
+        if isinstance(v, str):
+            return ""
+        if isinstance(v, bool):
+            return False
+        if isinstance(v, int):
+            return 0
+        return None
+
+    def _assign(self, target_raw, cur, new):
+        if isinstance(target_raw, absint.Ptr):
+            target_raw.set(new)
+            return True
+        if isinstance(cur, Map) and isinstance(new, Map):
+            cur.d = dict(new.d)
+            return True
+        return absint.become(cur, new)
+
+    def _mem_model(self, op, raw, a):
+        if op == "take":
+            old = self._snapshot(a[0])
+            dv = self._default_of(a[0])
+            if dv is None or not self._assign(raw[0], a[0], dv):
+                raise Stuck("mem::take of a value whose default is unknown")
+            return old
+        if op == "replace":
+            old = self._snapshot(a[0])
+            if not self._assign(raw[0], a[0], self._snapshot(a[1])):
+                raise Stuck("mem::replace on an opaque place")
+            return old
+        if op == "swap":
+            x, y = self._snapshot(a[0]), self._snapshot(a[1])
+            if not (self._assign(raw[0], a[0], y) and self._assign(raw[1], a[1], x)):
+                raise Stuck("mem::swap on opaque places")
+            return []
+        return UNKNOWN
 
     # ------------------------------------------------------------------ formatting
     def _fmt_model(self, c, a, raw, tt, g, env):
@@ -334,7 +411,11 @@ class Machine:
 
         def m(*names):
             return any(c == n or c.endswith(n) for n in names)
-        # ---- pass-through
+        # ---- pass-through (std wrappers only: an impl written in the crate, e.g. Deref for Located<T>, is followed instead)
+        lf = self.fb.by_path(c, self.crate)
+        if lf is not None and not lf.derived and isinstance(a0, (Enum, list)) and \
+                end in ("deref", "deref_mut", "as_ref", "as_mut", "borrow", "borrow_mut", "into", "from", "to_string"):
+            return NOT
         if m("std::ops::Deref>::deref", "std::ops::DerefMut>::deref_mut", "std::ops::Deref::deref", "std::ops::DerefMut::deref_mut",
              "std::convert::AsRef::as_ref", "std::convert::AsMut::as_mut", "std::borrow::Borrow::borrow", "std::clone::Clone::clone", "std::convert::AsRef>::as_ref", "std::convert::AsMut>::as_mut",
              "std::borrow::Borrow>::borrow", "std::borrow::BorrowMut>::borrow_mut", "std::rc::Rc::new", "std::boxed::Box::new",
@@ -469,7 +550,9 @@ class Machine:
             return self.call_value(a0, args)
         # ---- iterators
         if end == "into_iter" and ("IntoIterator" in c):
-            if isinstance(a0, Iter):
+            if self.fb.by_path(c, self.crate) is not None and isinstance(a0, Enum):
+                return NOT                  # an iterator type of the crate: follow its own into_iter
+            if isinstance(a0, (Iter, PeekableIt)) or (isinstance(a0, Enum) and getattr(a0, "adt", None) and "iter" in (getattr(a0, "adt", "") or "").lower()):
                 return a0
             if isinstance(a0, Enum) and getattr(a0, "name", None) in ("Range", "RangeInclusive") and len(a0.fields) >= 2 \
                     and all(isinstance(x, int) and not isinstance(x, bool) for x in a0.fields[:2]) and abs(a0.fields[1] - a0.fields[0]) < 64:
@@ -480,7 +563,10 @@ class Machine:
             if isinstance(a0, list):
                 return Iter(a0)
             return UNKNOWN
-        if m("<impl [T]>::iter", "<impl [T]>::iter_mut", "SmallVec::iter", "Vec::iter"):
+        if m("<impl [T]>::iter_mut", "Vec::iter_mut", "SmallVec::iter_mut"):
+            # elements that are themselves containers are aliased; scalar elements get a slot pointer
+            return Iter([x if isinstance(x, (list, Enum, Map)) else ListSlot(a0, i) for i, x in enumerate(a0)]) if isinstance(a0, list) else UNKNOWN
+        if m("<impl [T]>::iter", "SmallVec::iter", "Vec::iter"):
             return Iter(a0) if isinstance(a0, list) else UNKNOWN
         if m("HashMap::iter", "HashMap::into_iter", "HashMap::drain"):
             return Iter([[k, v] for k, v in a0.d.values()]) if isinstance(a0, Map) else UNKNOWN
@@ -504,7 +590,7 @@ class Machine:
             return Iter([])
         if m("<impl str>::chars"):
             return Iter([ord(ch) for ch in a0]) if isinstance(a0, str) else UNKNOWN
-        if "Iterator" in c or "iter::" in c or "Itertools" in c:
+        if "Iterator" in c or "iter::" in c or "Itertools" in c or "Peekable" in c:
             r = self._iter_model(c, end, a, tt, g)
             if r is not NOT:
                 return r
@@ -557,6 +643,47 @@ class Machine:
                 a0.extend(src)
                 return []
             return UNKNOWN
+        if m("Vec::retain", "SmallVec::retain", "Vec::retain_mut"):
+            if isinstance(a0, list):
+                keep = []
+                for x in list(a0):
+                    r = self.call_value(a[1], [x])
+                    if r is True:
+                        keep.append(x)
+                    elif r is not False:
+                        raise Stuck("retain predicate undecided")
+                a0[:] = keep
+                return []
+            return UNKNOWN
+        if m("Vec::clear", "SmallVec::clear"):
+            if isinstance(a0, list):
+                del a0[:]
+                return []
+            return UNKNOWN
+        if m("Vec::truncate", "SmallVec::truncate"):
+            if isinstance(a0, list) and isinstance(a[1], int):
+                del a0[a[1]:]
+                return []
+            return UNKNOWN
+        if m("Vec::insert", "SmallVec::insert"):
+            if isinstance(a0, list) and isinstance(a[1], int) and 0 <= a[1] <= len(a0):
+                a0.insert(a[1], a[2])
+                return []
+            return UNKNOWN
+        if m("Vec::remove", "SmallVec::remove"):
+            if isinstance(a0, list) and isinstance(a[1], int) and 0 <= a[1] < len(a0):
+                return a0.pop(a[1])
+            return UNKNOWN
+        if m("<impl [T]>::reverse"):
+            if isinstance(a0, list):
+                a0.reverse()
+                return []
+            return UNKNOWN
+        if m("HashMap::clear", "HashSet::clear"):
+            if isinstance(a0, Map):
+                a0.d.clear()
+                return []
+            return UNKNOWN
         if m("<impl [T]>::contains", "Vec::contains"):
             if isinstance(a0, list):
                 rs = [veq(x, a[1]) for x in a0]
@@ -565,6 +692,21 @@ class Machine:
         # ---- maps / sets
         if m("HashMap::new", "HashSet::new", "HashMap::with_capacity", "HashSet::with_capacity"):
             return Map()
+        if m("HashMap as std::iter::Extend>::extend", "HashSet as std::iter::Extend>::extend", "HashMap::extend", "HashSet::extend"):
+            if isinstance(a0, Map):
+                src = a[1].rest() if isinstance(a[1], Iter) else ([[k, v] for k, v in a[1].d.values()] if isinstance(a[1], Map) else
+                                                                  (list(a[1]) if isinstance(a[1], list) else None))
+                if src is None:
+                    return UNKNOWN
+                for it in src:
+                    if "HashSet" in c:
+                        a0.d[key_of(it)] = (it, True)
+                    elif isinstance(it, list) and len(it) == 2:
+                        a0.d[key_of(it[0])] = (it[0], it[1])
+                    else:
+                        return UNKNOWN
+                return []
+            return UNKNOWN
         if m("HashMap::insert"):
             if isinstance(a0, Map):
                 old = a0.d.get(key_of(a[1]))
@@ -607,8 +749,62 @@ class Machine:
             return NOT
         return NOT
 
+    def local_next(self, it):
+        """`next` of an iterator implemented in the crate (found through the abstract value's type), or NOT"""
+        adt = getattr(it, "adt", None) if isinstance(it, Enum) else None
+        if not adt:
+            return NOT
+        cands = [f for f in self.fb.all(self.crate) if f.name.endswith("::next") and f.trait and "Iterator" in f.trait and f.self_ty and
+                 mir.norm(f.self_ty).split("<")[0] == adt]
+        if len(cands) != 1:
+            return NOT
+        return self.run(cands[0], [it])
+
+    def step(self, it):
+        if isinstance(it, Iter):
+            return it.next()
+        if isinstance(it, PeekableIt):
+            if it.peeked is not None:
+                r, it.peeked = it.peeked, None
+                return r
+            return self.step(it.inner)
+        return self.local_next(it)
+
+    def materialize(self, it, bound=40):
+        """all remaining items of an abstract iterator as an Iter (None if it cannot be stepped)"""
+        if isinstance(it, Iter):
+            return it
+        items = []
+        for _ in range(bound):
+            r = self.step(it)
+            if r is NOT or not isinstance(r, Enum):
+                return None
+            if r.variant == 0:
+                return Iter(items)
+            items.append(r.fields[0])
+        return None
+
     def _iter_model(self, c, end, a, tt, g):
         a0 = a[0] if a else None
+        if end == "peekable" and (isinstance(a0, (Iter, PeekableIt)) or (isinstance(a0, Enum) and getattr(a0, "adt", None))):
+            return a0 if isinstance(a0, PeekableIt) else PeekableIt(a0)
+        if isinstance(a0, PeekableIt):
+            if end in ("peek", "peek_mut"):
+                if a0.peeked is None:
+                    a0.peeked = self.step(a0.inner)
+                    if a0.peeked is NOT:
+                        a0.peeked = None
+                        return UNKNOWN
+                return a0.peeked
+            if end == "next":
+                r = self.step(a0)
+                return UNKNOWN if r is NOT else r
+        if not isinstance(a0, Iter) and end in ITER_METHODS and end != "next" and \
+                (isinstance(a0, PeekableIt) or (isinstance(a0, Enum) and getattr(a0, "adt", None))):
+            mat = self.materialize(a0)
+            if mat is not None:
+                a = [mat] + list(a[1:])
+                a0 = mat
         if end == "next":
             if isinstance(a0, Iter):
                 return a0.next()
@@ -810,6 +1006,12 @@ class ListSlot(absint.Ptr):
 
     def set(self, v):
         self.lst[self.i] = v
+
+
+class PeekableIt:
+    """std::iter::Peekable around an abstract iterator"""
+    def __init__(self, inner):
+        self.inner, self.peeked = inner, None
 
 
 class FnItem:
